@@ -62,6 +62,11 @@ type envB struct {
 	closeErrs     []string
 }
 
+func (e *envB) hasIndex() bool {
+	_, err := os.Stat(filepath.Join(e.tgt, "index.json"))
+	return err == nil
+}
+
 func copyRepo(i int) string { return fmt.Sprintf("proj/c%d", i) }
 func copyTag(i int) string  { return fmt.Sprintf("c%d", i) }
 
@@ -138,10 +143,11 @@ func (e *envB) onArrive(en *rm.Entry) {
 		e.seenAll[d] = true
 	}
 	if e.closeAt[k] || (e.c.CloseEvery > 0 && k%e.c.CloseEvery == 0) {
+		hadIndex := e.hasIndex()
 		cerr := e.rc.Close(context.Background(), e.closeRef)
 		after := listDigestFiles(e.tgt)
 		e.closesInCopy++
-		if cerr != nil {
+		if cerr != nil && hadIndex {
 			e.closeErrs = append(e.closeErrs, cerr.Error())
 		}
 		if e.viol == nil {
@@ -252,7 +258,10 @@ func checkB(cs Case, ev *evid.Collector) *evid.Violation {
 						e.runCopy(ctx, st.Copy)
 					}
 				case "close":
-					if err := e.rc.Close(ctx, e.closeRef); err != nil {
+					// a layout that so far only received blobs (e.g. from a copy that failed) has no index.json; Close fails on
+					// reading it and nothing is asserted about that (see Part A)
+					hadIndex := e.hasIndex()
+					if err := e.rc.Close(ctx, e.closeRef); err != nil && hadIndex {
 						e.mu.Lock()
 						e.closeErrs = append(e.closeErrs, err.Error())
 						e.mu.Unlock()
@@ -346,6 +355,7 @@ func checkB(cs Case, ev *evid.Collector) *evid.Violation {
 	_, perr := e.rc.BlobPut(ctx, e.closeRef, descriptor.Descriptor{Digest: digest.Digest(rm.Digest("sha256", sentinel)), Size: int64(len(sentinel))}, bytes.NewReader(sentinel))
 	beforeFinal := takeSnap(e.tgt)
 	rb := reach(e.tgt)
+	rb.resolveEdges()
 	cerr := e.rc.Close(ctx, e.closeRef)
 	end := takeSnap(e.tgt)
 	if cerr != nil && beforeFinal.index != "" {
